@@ -308,7 +308,7 @@ def splitLoop (data pat : Bits) (e : Nat) (aligned : Bool) (count : Option Nat) 
       | some f => slice data startpos f :: splitLoop data pat e aligned count fuel f f (c + 1)
     else []
 
-/-- `Bits.split` (bits.py:1428-1476), observed as `list(s.split(...))`.  Each iteration moves `pos` forward by
+/-- `Bits.split` (bits.py:split/_split), observed as `list(s.split(...))`.  Each iteration moves `pos` forward by
     at least `|delimiter| ≥ 1`, so `len + 1` iterations suffice. -/
 def split (data pat : Bits) (start stop : Option Int) (count : Option Int) (ba : Option Bool) (optBA : Bool) :
     Except Err (List Bits) :=
@@ -364,6 +364,30 @@ def replace (data old new : Bits) (start stop : Option Int) (count : Option Int)
       | some c => c.toNat
     .ok (replaceCore data old new s e c (defaultBA ba optBA))
 
+/-! ## when a generator-returning entry point reads `options.bytealigned`
+
+  `optCall` is the option's value when the method is called, `optConsume` its value when the returned iterator is
+  first advanced (a caller may change the option in between).  The property fixes the result by the setting of
+  the call. -/
+
+/-- `Bits.findall` is an ordinary function: it resolves `bytealigned` and returns `self._findall(...)`, so the option
+    is read at the call. -/
+def findallSched (data pat : Bits) (start stop : Option Int) (count : Option Int) (ba : Option Bool)
+    (optCall _optConsume : Bool) : Except Err (List Nat) :=
+  findall data pat start stop count ba optCall
+
+/-- `Bits.split` resolves `bytealigned_ = options.bytealigned if bytealigned is None else bytealigned` itself and
+    returns the generator `self._split(...)` (which does the validation and the searching lazily), so the option
+    is read at the call. -/
+def splitSched (data pat : Bits) (start stop : Option Int) (count : Option Int) (ba : Option Bool)
+    (optCall _optConsume : Bool) : Except Err (List Bits) :=
+  split data pat start stop count ba optCall
+
+/-- `Bits.cut` is a generator function too but never looks at the option. -/
+def cutSched (data : Bits) (bits : Int) (start stop : Option Int) (count : Option Int)
+    (_optCall _optConsume : Bool) : Except Err (List Bits) :=
+  cut data bits start stop count
+
 /-! ## driver -/
 
 def optBoolOfStr? (s : String) : Option (Option Bool) :=
@@ -388,6 +412,17 @@ def chunksToStr (l : List Bits) : String :=
 /-- Fields after the property id.  The class field is not interpreted: the result depends on the bits only. -/
 def handle (args : List String) : String :=
   match args with
+  | ["cut_sched", _cls, d, n, a, b, c, oba, oba2] =>
+    match bitsOfStr? d, n.toInt?, optIntOfStr? a, optIntOfStr? b, optIntOfStr? c, boolOfStr? oba, boolOfStr? oba2 with
+    | some data, some n, some s, some e, some c, some oba, some oba2 =>
+      resultToStr chunksToStr (cutSched data n s e c oba oba2)
+    | _, _, _, _, _, _, _ => "bad-op"
+  | ["replace", _cls, d, o, n, a, b, ba, oba, c] =>
+    match bitsOfStr? d, bitsOfStr? o, bitsOfStr? n, optIntOfStr? a, optIntOfStr? b, optBoolOfStr? ba, boolOfStr? oba,
+        optIntOfStr? c with
+    | some data, some old, some new, some s, some e, some ba, some oba, some c =>
+      resultToStr (fun (r : Nat × Bits) => toString r.1 ++ " " ++ bitsToWire r.2) (replace data old new s e c ba oba)
+    | _, _, _, _, _, _, _, _ => "bad-op"
   | [op, _cls, d, p, a, b, ba, oba] =>
     match bitsOfStr? d, bitsOfStr? p, optIntOfStr? a, optIntOfStr? b, optBoolOfStr? ba, boolOfStr? oba with
     | some data, some pat, some s, some e, some ba, some oba =>
@@ -421,11 +456,13 @@ def handle (args : List String) : String :=
     match bitsOfStr? d, n.toInt?, optIntOfStr? a, optIntOfStr? b, optIntOfStr? c with
     | some data, some n, some s, some e, some c => resultToStr chunksToStr (cut data n s e c)
     | _, _, _, _, _ => "bad-op"
-  | ["replace", _cls, d, o, n, a, b, ba, oba, c] =>
-    match bitsOfStr? d, bitsOfStr? o, bitsOfStr? n, optIntOfStr? a, optIntOfStr? b, optBoolOfStr? ba, boolOfStr? oba,
-        optIntOfStr? c with
-    | some data, some old, some new, some s, some e, some ba, some oba, some c =>
-      resultToStr (fun (r : Nat × Bits) => toString r.1 ++ " " ++ bitsToWire r.2) (replace data old new s e c ba oba)
+  | [op, _cls, d, p, a, b, ba, oba, c, oba2] =>
+    match bitsOfStr? d, bitsOfStr? p, optIntOfStr? a, optIntOfStr? b, optBoolOfStr? ba, boolOfStr? oba, optIntOfStr? c,
+        boolOfStr? oba2 with
+    | some data, some pat, some s, some e, some ba, some oba, some c, some oba2 =>
+      if op = "findall_sched" then resultToStr natsToStr (findallSched data pat s e c ba oba oba2)
+      else if op = "split_sched" then resultToStr chunksToStr (splitSched data pat s e c ba oba oba2)
+      else "bad-op"
     | _, _, _, _, _, _, _, _ => "bad-op"
   | _ => "bad-op"
 
